@@ -1040,11 +1040,12 @@ def table_exec(run, fx):
             if not gt:
                 return O.Ptr(None)
             hdr = (scheme << 27) | 16
-            v = O.Vec([VERSION if needs else VERSION - 1, hdr, 0, 0, 0, 0, 0, 0])
+            # a table CheckTable rejects may be too short to have a version word at all: it is handed out as an EMPTY buffer, so any read is reported
+            v = O.Vec([VERSION if needs else VERSION - 1, hdr, 0, 0, 0, 0, 0, 0]) if chk else O.Vec([])
             log['obtained'].append(v)
             ln = I.rv(a[2]) if len(a) > 2 else None
             if isinstance(ln, O.PtrLV):
-                ln.lv.store(32)
+                ln.lv.store(32 if chk else 0)
             return O.It(v, 0)
 
         def release_table(I, f, e, obj, a):
@@ -1065,10 +1066,9 @@ def table_exec(run, fx):
 
         def lz4(I, f, e, obj, a):
             out, osz = I.rv(a[2]), I.rv(a[3])
-            if lzok and isinstance(out, O.It):
-                out.vec.items[0] = VERSION if (vermatch and needs) else 7
-                return osz
-            return -1
+            if isinstance(out, O.It):
+                out.vec.items[0] = VERSION if (vermatch and needs) else 7        # the first bytes may decode fine even when the block is damaged further on
+            return osz if lzok else -1
 
         def be_read(I, f, e, obj, a):
             lv = a[0]
@@ -1099,6 +1099,20 @@ def table_exec(run, fx):
                 it.run_user_copies = True          # Table's move constructor nulls the source: it must run, not be modelled as a field-wise copy
                 t1 = mk()
                 it.call(ctor, t1, [face, O.Rec({'graphite2::TtfUtil::Tag::_v': 0x53696c66}), VERSION])
+                # what the table must look like now
+                p1 = t1[PT + '_p']
+                have = p1.vec if isinstance(p1, O.It) else None
+                if not gt or not chk:
+                    want = 'nothing'
+                elif not needs or scheme == 0:
+                    want = 'the table as obtained'
+                elif scheme == 1 and lzok and vermatch:
+                    want = 'the decompressed copy'
+                else:
+                    want = 'nothing'
+                got_ = 'nothing' if have is None else ('the table as obtained' if any(have is x for x in log['obtained']) else 'the decompressed copy' if any(have is x for x in log['allocated']) else 'something else')
+                if got_ != want:
+                    return cases, '%s: after construction the table holds %s, expected %s (a damaged compressed table must not be accepted)' % (desc, got_, want)
                 if other is not None:
                     t2 = mk()
                     t2[PT + '_f'] = O.Ptr(face)
